@@ -414,7 +414,17 @@ def correspond(rep, name, cases, theorem, compare_model=True, impl_timeout=900):
         if i:
             distinct.add(text.split(" ", 2)[2])
         o = orc.get(cid)
-        if o is not None and o != "ok":
+        if o is not None and o.startswith("known:"):
+            # a deviation that the oracle itself classifies as a recorded finding
+            tags = dict(tags); tags["known"] = o.split(" ", 1)[0][6:]
+            rep.fail("the implementation's trace violates the specification: " + o,
+                     {"case": text, "impl": i, "model": m, "oracle": o, "tags": tags,
+                      "theorem": theorem, "failing_input_found": True}, tags)
+            if i != m:
+                dis += 1
+                rep.fail("model differs from implementation", {"case": text, "impl": i, "model": m, "tags": tags,
+                                                               "correspondence": theorem, "failing_input_found": False}, {})
+        elif o is not None and o != "ok":
             rep.fail("the implementation's trace violates the specification: " + o,
                      {"case": text, "impl": i, "model": m, "oracle": o, "tags": tags,
                       "theorem": theorem, "failing_input_found": True}, tags)
